@@ -3,6 +3,7 @@
 package main
 
 import (
+	distrtypes "github.com/cosmos/cosmos-sdk/x/distribution/types"
 	"fmt"
 	"strconv"
 	"strings"
@@ -350,6 +351,18 @@ func (d *Driver) Apply(s Step) bool {
 
 	case "govParam":
 		return d.GovParam(s.S("module"), s.S("field"), s.S("value"))
+
+	case "govDistrTax": // governance sets the community tax of the (wrapped) SDK distribution module; 0 is a permitted value
+		ctx := c.AdminCtx()
+		dp, err := a.DistrKeeper.Params.Get(ctx)
+		if err != nil {
+			return false
+		}
+		dp.CommunityTax = math.LegacyMustNewDecFromStr(s.S("value"))
+		ev := newEvent("distribution.MsgUpdateParams", "gov")
+		ev.Args["field"], ev.Args["value"] = "CommunityTax", s.S("value")
+		c.AdminEv(ev, &distrtypes.MsgUpdateParams{Authority: c.gov(), Params: dp})
+		return true
 
 	case "govVestInfo": // governance: MsgUpdateVestingInfo for ueden
 		msg := &committypes.MsgUpdateVestingInfo{Authority: c.gov(), BaseDenom: "ueden", VestingDenom: "uelys", NumBlocks: s.I("num"),
